@@ -257,10 +257,13 @@ Proof.
 Qed.
 
 (* the tie of the whole laws suite *)
-Theorem spec_ok_model : forall c, spec_ok c (model_obs c) = true.
+Theorem spec_ok_model : forall c, hwf c = true -> spec_ok c (model_obs c) = true.
 Proof.
-  intros c. unfold spec_ok.
-  rewrite (spec_base_model c), ne_ok_model, (sorted_ok_model c), ops_ok_model, !andb_true_r.
+  intros c HW. unfold spec_ok.
+  assert (hash_present (model_obs c) = true) as HP.
+  { unfold hash_present, model_obs. cbn [o_hash]. unfold hwf in HW. rewrite forallb_forall in *.
+    intros h Hh. apply in_map_iff in Hh as [t [E Ht]]. subst h. apply (HW t Ht). }
+  rewrite (spec_base_model c), ne_ok_model, (sorted_ok_model c), ops_ok_model, HP, !andb_true_r.
   unfold model_obs. cbn [o_lt]. apply family_ok_model.
 Qed.
 
@@ -287,7 +290,7 @@ Lemma sorted_ok_reads : forall c o, spec_ok c o = true ->
     /\ sorted nat f p                                                        (* nothing later is less than something earlier *)
     /\ (forall x, (x < n)%nat -> filter (tie nat f x) p = filter (tie nat f x) (seq 0 n)).  (* ties keep their input order *)
 Proof.
-  intros c o H n f SW. unfold spec_ok in H. apply andb_true_iff in H as [H _]. apply andb_true_iff in H as [_ H].
+  intros c o H n f SW. unfold spec_ok in H. apply andb_true_iff in H as [H _]. apply andb_true_iff in H as [H _]. apply andb_true_iff in H as [_ H].
   unfold sorted_ok in H. fold n in H. rewrite SW in H.
   destruct (o_sorted o) as [[p|]|]; try discriminate. exists p. split; auto.
   apply andb_true_iff in H as [H H3]. apply andb_true_iff in H as [H1 H2].
@@ -299,4 +302,17 @@ Proof.
   - intros x Hx. unfold stableb in H3. rewrite forallb_forall in H3.
     assert (In x (seq 0 n)) as I by (apply in_seq; lia). specialize (H3 x I).
     apply list_eqb_nat_eq in H3. exact H3.
+Qed.
+
+Lemma spec_ok_hash_reads : forall c o, spec_ok c o = true ->
+  forall i, (i < length (c_terms c))%nat -> exists h, nth i (o_hash o) None = Some h.
+Proof.
+  intros c o H i Hi. unfold spec_ok in H. apply andb_true_iff in H as [H HP].
+  do 4 (apply andb_true_iff in H as [H _]). unfold spec_base in H.
+  repeat (apply andb_true_iff in H as [H ?]).
+  assert (length (o_hash o) = length (c_terms c)) as L.
+  { match goal with X : Nat.eqb (length (o_hash o)) _ = true |- _ => apply Nat.eqb_eq in X; exact X end. }
+  unfold hash_present in HP. rewrite forallb_forall in HP.
+  assert (In (nth i (o_hash o) None) (o_hash o)) as I by (apply nth_In; lia).
+  specialize (HP _ I). destruct (nth i (o_hash o) None); [eauto|discriminate].
 Qed.
